@@ -1114,6 +1114,25 @@ func rulePassesWalkWholeEnvironment(c *core.Ctx) {
 			continue
 		}
 		env := params[0]
+		// a pass that asks the environment for its top-level namespace looks at the package being compiled only:
+		// the rule it implements is not applied to imported packages
+		{
+			var topCall *ast.CallExpr
+			ast.Inspect(d.Body, func(n ast.Node) bool {
+				if ce, ok := n.(*ast.CallExpr); ok {
+					if se, ok := ast.Unparen(ce.Fun).(*ast.SelectorExpr); ok && se.Sel.Name == "GetTopLevelNamespace" && identObj(info, se.X) == env {
+						topCall = ce
+					}
+				}
+				return true
+			})
+			pos := d.Pos()
+			if topCall != nil {
+				pos = topCall.Pos()
+			}
+			c.Check(topCall == nil, rule, d.Name.Name+"/not restricted to the top-level namespace", pos, "the pass does not single out the top-level namespace",
+				"the pass works on env.GetTopLevelNamespace(): definitions of imported packages are never checked by it, and generation proceeds on a model that should have been rejected")
+		}
 		// loop variables ranging over env.Namespaces
 		nsVars := map[types.Object]bool{}
 		ast.Inspect(d.Body, func(n ast.Node) bool {
@@ -11462,4 +11481,153 @@ func ruleDepthTestBeforeMemoLookup(c *core.Ctx) {
 	}
 	c.Check(depthPos < memoPos, rule, "collectPackages/depth test before memo lookup", d.Pos(), "the depth is tested before the memo can return",
 		"the memo lookup returns before the depth is tested: a package that another import reached first on a shorter path is accepted at any depth, so `imports: [../p10, ../p1]` and `imports: [../p1, ../p10]` give different verdicts")
+}
+
+// ruleDefinitionEqualityComparesNamespaces (VS2): two definitions are the same only if they have the same QUALIFIED
+// name — `A.Header` and `B.Header` from two imported packages are different types even when their fields agree.
+// TypeDefinitionsEqual (behind TypesEqual: duplicate union cases, evolution, NDJSON de-duplication) compares the
+// namespace wherever it compares the name.
+func ruleDefinitionEqualityComparesNamespaces(c *core.Ctx) {
+	const rule = "VS2"
+	c.Rule(rule, "dsl.TypeDefinitionsEqual: the comparison of the definitions' names also compares their namespaces (or compares qualified names)", 1)
+	_, d, p := c.Func("pkg/dsl", "TypeDefinitionsEqual")
+	if d == nil || p == nil {
+		c.Undecided(rule, "anchor/pkg/dsl.TypeDefinitionsEqual", 0, "anchor not found")
+		return
+	}
+	cmpField := func(field string) bool {
+		hit := false
+		ast.Inspect(d.Body, func(m ast.Node) bool {
+			be, ok := m.(*ast.BinaryExpr)
+			if !ok || (be.Op != token.EQL && be.Op != token.NEQ) {
+				return true
+			}
+			l, lok := ast.Unparen(be.X).(*ast.SelectorExpr)
+			r, rok := ast.Unparen(be.Y).(*ast.SelectorExpr)
+			if lok && rok && l.Sel.Name == field && r.Sel.Name == field {
+				hit = true
+			}
+			return true
+		})
+		return hit
+	}
+	qualified := false
+	ast.Inspect(d.Body, func(m ast.Node) bool {
+		if be, ok := m.(*ast.BinaryExpr); ok && (be.Op == token.EQL || be.Op == token.NEQ) {
+			if strings.Contains(types.ExprString(be.X), "GetQualifiedName()") && strings.Contains(types.ExprString(be.Y), "GetQualifiedName()") {
+				qualified = true
+			}
+		}
+		return true
+	})
+	names := cmpField("Name")
+	if !names && !qualified {
+		c.Undecided(rule, "TypeDefinitionsEqual/name comparison", d.Pos(), "no comparison of the definitions' names found")
+		return
+	}
+	c.Check(qualified || cmpField("Namespace"), rule, "TypeDefinitionsEqual/namespace compared", d.Pos(), "names are compared together with their namespaces",
+		"the definitions' names are compared without their namespaces: same-named, same-shaped types of two imported packages (`A.Header`, `B.Header`) are taken for one type — a union of both is rejected as redundant, evolution pairs the wrong definitions")
+}
+
+// ruleUnionTagsPrintedVerbatim (TG1): the tag of a union case is part of the NDJSON wire text (`{"int32": 7}`) and has
+// to be the same string in every language. Wherever a back end prints a case's tag as DATA — the `"tag": "%s"` attribute
+// of the Python case classes, the `{"%s", …}` key and the `tag == "%s"` comparison of the C++ converters — the argument
+// is the case's `.Tag` itself, not an identifier derived from it (PascalCase is for class and method names).
+func ruleUnionTagsPrintedVerbatim(c *core.Ctx) {
+	const rule = "TG1"
+	c.Rule(rule, "back ends: the argument printed into `\"tag\": \"%s\"`, `tag == \"%s\"` and `ordered_json{ {\"%s\", …} }` is a TypeCase's .Tag field itself", 3)
+	verb := regexp.MustCompile(`%(\[\d+\])?[a-zA-Z]`)
+	spots := []*regexp.Regexp{regexp.MustCompile(`"tag": "%s"`), regexp.MustCompile(`tag == "%s"`), regexp.MustCompile(`ordered_json\{ \{"%s"`)}
+	n := 0
+	for _, d := range c.AllDecls() {
+		p := c.DeclPkg(d)
+		if p == nil || d.Body == nil || c.IsTestFile(d.Pos()) || !(strings.Contains(p.PkgPath, "/internal/python") || strings.Contains(p.PkgPath, "/internal/cpp/ndjson")) {
+			continue
+		}
+		info := p.TypesInfo
+		k := 0
+		ast.Inspect(d.Body, func(nn ast.Node) bool {
+			ce, ok := nn.(*ast.CallExpr)
+			if !ok || !strings.HasSuffix(types.ExprString(ce.Fun), "Fprintf") || len(ce.Args) < 3 {
+				return true
+			}
+			tv, ok := info.Types[ce.Args[1]]
+			if !ok || tv.Value == nil || tv.Value.Kind() != constant.String {
+				return true
+			}
+			tmpl := constant.StringVal(tv.Value)
+			for _, sp := range spots {
+				loc := sp.FindStringIndex(tmpl)
+				if loc == nil {
+					continue
+				}
+				// which verb is the %s of the spot?
+				at := loc[0] + strings.Index(tmpl[loc[0]:loc[1]], "%s")
+				idx := -1
+				for i, m := range verb.FindAllStringIndex(tmpl, -1) {
+					if m[0] == at {
+						idx = i
+					}
+				}
+				if strings.Contains(tmpl, "%[") || idx < 0 || 2+idx >= len(ce.Args) {
+					continue
+				}
+				arg := ast.Unparen(ce.Args[2+idx])
+				n++
+				k++
+				key := fmt.Sprintf("%s/%s#%d", c.FuncName(d), sp.String(), k)
+				good := false
+				if se, ok := arg.(*ast.SelectorExpr); ok && se.Sel.Name == "Tag" {
+					if nt := core.NamedOf(info.TypeOf(se.X)); nt != nil && nt.Obj().Name() == "TypeCase" {
+						good = true
+					}
+				}
+				c.Check(good, rule, key, ce.Pos(), "the case's Tag field itself",
+					"the tag is printed from `"+types.ExprString(arg)+"`, not from the case's .Tag: the NDJSON text of a tagged union then spells the tag differently from the other languages (`{\"Int32\": 7}` vs `{\"int32\": 7}`) and their readers do not find the case")
+			}
+			return true
+		})
+	}
+	if n == 0 {
+		c.Undecided(rule, "anchor/printed tags", 0, "no printed tag attribute / key / comparison found")
+	}
+}
+
+// ruleEnumFallbackKeepsTheBaseType (EN2): an enum value without a symbol is written to NDJSON as its integer. The C++
+// converter prints the cast for it; the cast is to the enum's underlying type — a fixed type such as int truncates
+// 64-bit values and turns large unsigned ones negative.
+func ruleEnumFallbackKeepsTheBaseType(c *core.Ctx) {
+	const rule = "EN2"
+	c.Rule(rule, "cpp/ndjson: a printed `j = static_cast<T>(value)` casts to `underlying_type` (declared from std::underlying_type), never to a fixed integer type", 1)
+	p := c.Pkg("internal/cpp/ndjson")
+	if p == nil {
+		c.Undecided(rule, "anchor/internal/cpp/ndjson", 0, "package not found")
+		return
+	}
+	cast := regexp.MustCompile(`j = static_cast<([^>]*)>\(value\)`)
+	n := 0
+	for _, f := range p.Syntax {
+		if c.IsTestFile(f.Pos()) {
+			continue
+		}
+		ast.Inspect(f, func(m ast.Node) bool {
+			bl, ok := m.(*ast.BasicLit)
+			if !ok || bl.Kind != token.STRING {
+				return true
+			}
+			tv, ok := p.TypesInfo.Types[bl]
+			if !ok || tv.Value == nil {
+				return true
+			}
+			for _, mm := range cast.FindAllStringSubmatch(constant.StringVal(tv.Value), -1) {
+				n++
+				c.Check(strings.TrimSpace(mm[1]) == "underlying_type", rule, fmt.Sprintf("printed cast/static_cast<%s>#%d", mm[1], n), bl.Pos(), "the enum's underlying type",
+					"an enum value without a symbol is written through static_cast<"+mm[1]+">: values of enums with a 64-bit or unsigned base are truncated or written as negative numbers and read back as another value")
+			}
+			return true
+		})
+	}
+	if n == 0 {
+		c.Undecided(rule, "anchor/printed cast of an enum value", 0, "no printed `j = static_cast<…>(value)` found in cpp/ndjson")
+	}
 }
